@@ -8,7 +8,7 @@ CONSTANTS
   MaxEnv = 2
   ForeignAt = "none"
   RenderFails = FALSE
-  FailKinds = {"fnerror1", "fatal2"}
+  FailKinds = {"fnerror1", "fatal2", "reqlabel2"}
 VIEW view
 ACTION_CONSTRAINT Emit
 CHECK_DEADLOCK FALSE
